@@ -223,6 +223,16 @@ def benchmark_seed_independence(rep):
         rep.count("benchmark-seed-independence")
         if f1 != f2:
             rep.fail("C19:benchmark-params", f"make_benchmark_scenario('{name}', 5) differs after calls with other seeds", dict(name=name))
+        # an unseeded call must not depend on the seed of an EARLIER call: same global stream, different history
+        nasim.make_benchmark_scenario(name, 7)
+        np.random.seed(123)
+        g1 = scenario_fingerprint(nasim.make_benchmark_scenario(name))
+        nasim.make_benchmark_scenario(name, 9)
+        np.random.seed(123)
+        g2 = scenario_fingerprint(nasim.make_benchmark_scenario(name))
+        if g1 != g2:
+            rep.fail("C19:benchmark-seed-leak", f"make_benchmark_scenario('{name}') without seed depends on the seed of an earlier call "
+                     "(same global random state, different earlier call)", dict(name=name))
 
 
 FOREIGN = st.one_of(
